@@ -702,8 +702,10 @@ func (ip *Interp) mapFind(m *MapV, key Value) *mapEntry {
 	if m == nil {
 		return nil
 	}
-	if s, ok := key.(string); ok && m.nonStr == 0 && !isInterfaceType(m.kt) {
-		return m.sidx[s] // all keys are concrete strings: equality is decided without the solver
+	if s, ok := idxKey(key); ok && m.nonStr == 0 && !isInterfaceType(m.kt) {
+		if _, _, _, isFloat := basicInfo(m.kt); !isFloat {
+			return m.sidx[s] // all keys are concrete strings / constant integers: equality is decided without the solver
+		}
 	}
 	for _, e := range m.entries {
 		if ip.ex.Branch(ip.equals(m.kt, e.k, key)) {
